@@ -454,7 +454,10 @@ def run_property(modname, tier, seed, only_subs=None, procs=None):
             print("HARNESS-ERROR %s" % e[:3000], file=sys.stderr)
         if len(errors) > 3:
             print("HARNESS-ERROR ... and %d more shard errors" % (len(errors) - 3), file=sys.stderr)
-        return 2
+        if not vio_list:
+            return 2
+        # violations were established (each with its replay file) before / beside the harness error: they stand on their own
+        print("note: %d shard(s) also ended in a harness error (above); the violations are reported regardless" % len(errors), file=sys.stderr)
     if vio_list:
         return 1
     if ev == 0 or len(nontriv) < 2:
